@@ -103,13 +103,13 @@ Proof.
       * intros (v' & _ & Hv & He). injection Hv as <-. exact He.
     + intros H. injection H as <-. split; [discriminate|].
       intros (v & Hc & _). discriminate.
-  - destruct x; try discriminate.
-    + intros H. injection H as <-. split; [discriminate|]. intros (s & w & Hx & _). discriminate.
-    + destruct (lower_str s) as [w|e] eqn:E; cbn [bind]; [|discriminate].
-      destruct (has_newline w); [discriminate|]. intros H. injection H as <-. split.
-      * intros Hg. exists s, w. repeat split; auto. apply glob_spec. exact Hg.
-      * intros (s' & w' & Hx & Hl & Hg). injection Hx as <-. rewrite E in Hl. injection Hl as <-.
-        apply glob_spec. exact Hg.
+  - destruct x;
+      try (intros H; injection H as <-; split; [discriminate|]; intros (s & w & Hx & _); discriminate).
+    destruct (lower_str s) as [w|e] eqn:E; cbn [bind]; [|discriminate].
+    destruct (has_newline w); [discriminate|]. intros H. injection H as <-. split.
+    + intros Hg. exists s, w. repeat split; auto. apply glob_spec. exact Hg.
+    + intros (s' & w' & Hx & Hl & Hg). injection Hx as <-. rewrite E in Hl. injection Hl as <-.
+      apply glob_spec. exact Hg.
   - destruct x; try discriminate; try apply is_ne_spec;
       (intros H; rewrite H; split; [intros ->; reflexivity | intros H'; injection H' as ->; reflexivity]).
   - destruct x; try apply is_ne_spec.
@@ -136,6 +136,8 @@ Lemma text_case_insensitive a v : non_ascii a = false ->
 Proof.
   intros H. cbn [sat]. unfold lower_str, str_lower. rewrite H. reflexivity.
 Qed.
+Lemma wild_nontext p x : (forall s, x <> VStr s) -> sat (CWild p) x = Ok false.
+Proof. intros H. destruct x; try reflexivity. exfalso. apply (H s). reflexivity. Qed.
 Lemma nontext_never_wild_eq o v z : sat (COpText o v) (VInt z) = Ok (is_ne o).
 Proof. reflexivity. Qed.
 
@@ -525,6 +527,10 @@ Proof. reflexivity. Qed.
 Lemma lookup_ne : lookup_op [60; 62] = Ok ONe.
 Proof. reflexivity. Qed.
 
+Lemma split_eq v : split_op (61 :: v) = ([61], v).
+Proof. reflexivity. Qed.
+Lemma split_ne v : split_op (60 :: 62 :: v) = ([60; 62], v).
+Proof. reflexivity. Qed.
 Lemma newline_eq v : has_newline (61 :: v) = has_newline v.
 Proof. reflexivity. Qed.
 Lemma newline_ne v : has_newline (60 :: 62 :: v) = has_newline v.
@@ -535,7 +541,7 @@ Lemma parse_eq_text v w : is_num (VStr (61 :: v)) = Ok false -> has_newline v = 
   parse_criteria (VStr (61 :: v)) = Ok (COpText OEq w).
 Proof.
   intros H0 Hn Hv Hw Hl. unfold parse_criteria. rewrite H0. cbn [bind].
-  rewrite newline_eq, Hn. cbn [split_op fst snd]. rewrite lookup_eq. cbn [bind].
+  rewrite newline_eq, Hn, split_eq. cbn [fst snd]. rewrite lookup_eq. cbn [bind].
   rewrite Hv. cbn [bind is_eq andb]. rewrite Hw, Hl. reflexivity.
 Qed.
 Lemma parse_ne_text v w : is_num (VStr (60 :: 62 :: v)) = Ok false -> has_newline v = false ->
@@ -543,7 +549,7 @@ Lemma parse_ne_text v w : is_num (VStr (60 :: 62 :: v)) = Ok false -> has_newlin
   parse_criteria (VStr (60 :: 62 :: v)) = Ok (COpText ONe w).
 Proof.
   intros H0 Hn Hv Hl. unfold parse_criteria. rewrite H0. cbn [bind].
-  rewrite newline_ne, Hn. cbn [split_op fst snd]. rewrite lookup_ne. cbn [bind].
+  rewrite newline_ne, Hn, split_ne. cbn [fst snd]. rewrite lookup_ne. cbn [bind].
   rewrite Hv. cbn [bind is_eq andb]. rewrite Hl. reflexivity.
 Qed.
 Lemma parse_eq_num v n : is_num (VStr (61 :: v)) = Ok false -> has_newline v = false ->
@@ -551,7 +557,7 @@ Lemma parse_eq_num v n : is_num (VStr (61 :: v)) = Ok false -> has_newline v = f
   parse_criteria (VStr (61 :: v)) = Ok (CNumEq n).
 Proof.
   intros H0 Hn Hv Ht. unfold parse_criteria. rewrite H0. cbn [bind].
-  rewrite newline_eq, Hn. cbn [split_op fst snd]. rewrite lookup_eq. cbn [bind].
+  rewrite newline_eq, Hn, split_eq. cbn [fst snd]. rewrite lookup_eq. cbn [bind].
   rewrite Hv. cbn [bind is_eq andb]. rewrite Ht. reflexivity.
 Qed.
 Lemma parse_ne_num v n : is_num (VStr (60 :: 62 :: v)) = Ok false -> has_newline v = false ->
@@ -559,7 +565,7 @@ Lemma parse_ne_num v n : is_num (VStr (60 :: 62 :: v)) = Ok false -> has_newline
   parse_criteria (VStr (60 :: 62 :: v)) = Ok (COpNum ONe n).
 Proof.
   intros H0 Hn Hv Ht. unfold parse_criteria. rewrite H0. cbn [bind].
-  rewrite newline_ne, Hn. cbn [split_op fst snd]. rewrite lookup_ne. cbn [bind].
+  rewrite newline_ne, Hn, split_ne. cbn [fst snd]. rewrite lookup_ne. cbn [bind].
   rewrite Hv. cbn [bind is_eq andb]. rewrite Ht. reflexivity.
 Qed.
 
@@ -800,6 +806,320 @@ Proof.
   replace (zlen cells =? 0) with false.
   2:{ symmetry. apply Z.eqb_neq. unfold zlen. destruct cells; [congruence|]. cbn [length]. lia. }
   reflexivity.
+Qed.
+
+(* ---------------------------------------------------------- totality *)
+(* a result that is a value or "outside the model" *)
+Definition ok_or_unmodelled {A} (r : res A) : Prop := (exists a, r = Ok a) \/ r = Raise Unmodelled.
+Definition soft {A} (r : res A) : Prop :=
+  match r with Ok _ => True | Raise e => e = ValueError \/ e = Unmodelled end.
+
+Ltac soft_split :=
+  repeat (cbv zeta;
+          match goal with
+          | |- soft (match ?x with _ => _ end) => destruct x
+          | |- soft (if ?x then _ else _) => destruct x
+          end); cbn [soft]; auto.
+
+Lemma parse_float_soft s : soft (parse_float s).
+Proof. unfold parse_float. soft_split. Qed.
+
+Lemma py_int_base_soft s : soft (py_int_base s 10).
+Proof. unfold py_int_base. soft_split. Qed.
+
+Lemma is_num_str_cases s :
+  (exists q, parse_float s = Ok q /\ is_num (VStr s) = Ok true)
+  \/ (parse_float s = Raise ValueError /\ is_num (VStr s) = Ok false)
+  \/ (parse_float s = Raise Unmodelled /\ is_num (VStr s) = Raise Unmodelled).
+Proof.
+  pose proof (parse_float_soft s) as H. unfold is_num, excelutil.f_is_number.
+  cbn [lift1 bind py_float]. destruct (parse_float s) as [q|e]; cbn [soft] in H.
+  - left. exists q. split; [reflexivity|]. py_run. reflexivity.
+  - destruct H as [-> | ->]; [right; left|right; right]; split; try reflexivity; py_run; reflexivity.
+Qed.
+
+Definition soft_int (r : res pyval) : Prop :=
+  match r with
+  | Ok (VInt _) => True
+  | Ok _ => False
+  | Raise e => e = ValueError \/ e = Unmodelled
+  end.
+Lemma py_int_base_soft_int s : soft_int (py_int_base s 10).
+Proof.
+  unfold py_int_base.
+  repeat (cbv zeta;
+          match goal with
+          | |- soft_int (match ?x with _ => _ end) => destruct x
+          | |- soft_int (if ?x then _ else _) => destruct x
+          end); cbn [soft_int]; auto.
+Qed.
+
+Lemma to_num_str s :
+  match to_num (VStr s) with
+  | Ok v => (exists z, v = VInt z) \/ (exists q, v = VFloat q)
+            \/ (v = VStr s /\ parse_float s = Raise ValueError)
+  | Raise e => e = Unmodelled
+  end.
+Proof.
+  unfold to_num, py_fuel. cbn [excelutil.f_coerce_to_number]. py_run.
+  pose proof (py_int_base_soft_int s) as HI. pose proof (parse_float_soft s) as HF.
+  assert (Hfloat :
+    match (o_0 <- match r_ <- py_float (VStr s);; Ok (inl r_) with
+                  | Ok x_ => Ok x_
+                  | Raise e_ => if catches [ValueError; TypeError] e_ then Ok (inl (VStr s)) else Raise e_
+                  end;;
+           match o_0 with
+           | inl r_ => Ok r_
+           | inr (VList []) => Ok VNone
+           | _ => Raise Unmodelled
+           end) with
+    | Ok v => (exists z, v = VInt z) \/ (exists q, v = VFloat q)
+              \/ (v = VStr s /\ parse_float s = Raise ValueError)
+    | Raise e => e = Unmodelled
+    end).
+  { cbn [py_float bind]. destruct (parse_float s) as [q|e]; cbn [soft bind] in *.
+    - right. left. eauto.
+    - destruct HF as [-> | ->]; cbn; auto. }
+  destruct (negb (str_contains [46] s)); cbn [bind].
+  - destruct (py_int_base s 10) as [v|e]; cbn [soft_int bind] in *.
+    + destruct v; try contradiction. left. eauto.
+    + destruct HI as [-> | ->]; cbn [catches existsb exn_eqb orb bind]; [exact Hfloat|reflexivity].
+  - exact Hfloat.
+Qed.
+
+Definition numval (v : pyval) : Prop :=
+  match v with VBool _ | VInt _ | VFloat _ => True | _ => False end.
+Definition crit_ok (c : criterion) : Prop :=
+  match c with CNumEq n | COpNum _ n => numval n | _ => True end.
+(* a criterion argument: a number, a logical or a text *)
+Definition crit_scalar (v : pyval) : Prop :=
+  match v with VBool _ | VInt _ | VFloat _ | VStr _ => True | _ => False end.
+
+Lemma is_num_total x : is_scalar x = true -> ok_or_unmodelled (is_num x).
+Proof.
+  destruct x; try discriminate; intros _.
+  - left. rewrite is_num_none. eauto.
+  - left. rewrite is_num_bool. eauto.
+  - left. rewrite is_num_int. eauto.
+  - left. rewrite is_num_float. eauto.
+  - destruct (is_num_str_cases s) as [(q & _ & ->)|[(_ & ->)|(_ & ->)]]; [left|left|right]; eauto.
+Qed.
+
+Lemma to_num_total x : is_scalar x = true -> is_num x = Ok true ->
+  (exists v, to_num x = Ok v /\ numval v) \/ to_num x = Raise Unmodelled.
+Proof.
+  destruct x; try discriminate; intros _ Hn.
+  - left. rewrite to_num_bool. eexists. split; [reflexivity|exact I].
+  - left. rewrite to_num_int. eexists. split; [reflexivity|exact I].
+  - left. rewrite to_num_float. eexists. split; [reflexivity|].
+    destruct (q_eqb (inject_Z (q_trunc q)) q); exact I.
+  - pose proof (to_num_str s) as H. destruct (to_num (VStr s)) as [v|e]; [|right; congruence].
+    left. exists v. split; [reflexivity|].
+    destruct H as [(z & ->)|[(q & ->)|(-> & Hp)]]; try exact I.
+    destruct (is_num_str_cases s) as [(q & Hq & _)|[(_ & H')|(_ & H')]]; congruence.
+Qed.
+
+Lemma lower_total s : ok_or_unmodelled (lower_str s).
+Proof.
+  unfold lower_str, str_lower. destruct (non_ascii s); [destruct (case_ok s)|]; cbn [bind];
+    [left|right|left]; eauto.
+Qed.
+
+Lemma cmp_cop_num o x n : numval x -> numval n -> exists b, cmp_cop o x n = Ok b.
+Proof.
+  destruct x; try contradiction; destruct n; try contradiction; intros _ _; destruct o;
+    cbn [cmp_cop py_lt py_le py_gt py_ge scalar_lt as_num]; eauto.
+Qed.
+Lemma cmp_cop_str o a b : exists r, cmp_cop o (VStr a) (VStr b) = Ok r.
+Proof. destruct o; cbn [cmp_cop py_lt py_le py_gt py_ge scalar_lt]; eauto. Qed.
+
+(* the check of a parsed criterion never raises on a scalar cell *)
+Lemma sat_total c x : crit_ok c -> is_scalar x = true -> ok_or_unmodelled (sat c x).
+Proof.
+  intros Hc Hx. destruct c as [n|p|o n|o v]; cbn [sat crit_ok] in *.
+  - destruct (is_num_total x Hx) as [(b & Hb)|Hu]; [|right; rewrite Hu; reflexivity].
+    rewrite Hb. cbn [bind]. destruct b; [|left; eauto].
+    destruct (to_num_total x Hx Hb) as [(v & Hv & _)|Hu]; [left|right]; rewrite ?Hv, ?Hu; cbn [bind]; eauto.
+  - destruct x; try (left; eauto; fail).
+    destruct (lower_total s) as [(w & ->)| ->]; cbn [bind]; [|right; reflexivity].
+    destruct (has_newline w); [right|left]; eauto.
+  - destruct x; try discriminate; try (left; eauto; fail);
+      (left; apply cmp_cop_num; [exact I|exact Hc]).
+  - destruct x; try (left; eauto; fail).
+    destruct (lower_total s) as [(w & ->)| ->]; cbn [bind]; [|right; reflexivity].
+    left. apply cmp_cop_str.
+Qed.
+
+Lemma lookup_total s : exists o, lookup_op (fst (split_op s)) = Ok o.
+Proof.
+  unfold split_op.
+  repeat match goal with
+         | |- context [match ?x with _ => _ end] => destruct x
+         end; cbn [fst]; eexists; reflexivity.
+Qed.
+
+(* every number / logical / text criterion parses (or is outside the model) *)
+Lemma parse_total crit : crit_scalar crit ->
+  (exists c, parse_criteria crit = Ok c /\ crit_ok c) \/ parse_criteria crit = Raise Unmodelled.
+Proof.
+  intros Hs. assert (Hx : is_scalar crit = true) by (destruct crit; try contradiction; reflexivity).
+  unfold parse_criteria.
+  destruct (is_num_total crit Hx) as [(b & Hb)|Hu]; [|right; rewrite Hu; reflexivity].
+  rewrite Hb. cbn [bind]. destruct b.
+  - destruct (to_num_total crit Hx Hb) as [(v & Hv & Hn)|Hu]; [left|right]; rewrite ?Hv, ?Hu; cbn [bind]; eauto.
+  - destruct crit; try contradiction.
+    + rewrite is_num_bool in Hb. discriminate.
+    + rewrite is_num_int in Hb. discriminate.
+    + rewrite is_num_float in Hb. discriminate.
+    + destruct (has_newline s); [right; reflexivity|].
+      destruct (lookup_total s) as (o & ->). cbn [bind].
+      set (v := snd (split_op s)).
+      assert (Hv : is_scalar (VStr v) = true) by reflexivity.
+      destruct (is_num_total (VStr v) Hv) as [(vn & Hvn)|Hu]; [|right; rewrite Hu; reflexivity].
+      rewrite Hvn. cbn [bind].
+      assert (Hnum : forall k, (forall n, crit_ok (k n) = numval n) ->
+                (exists c, (n <- to_num (VStr v);; Ok (k n)) = Ok c /\ crit_ok c)
+                \/ (n <- to_num (VStr v);; Ok (k n)) = Raise Unmodelled \/ vn = false).
+      { intros k Hk. destruct vn; [|auto].
+        destruct (to_num_total (VStr v) Hv Hvn) as [(n & Hn & Hnv)|Hu]; rewrite ?Hn, ?Hu; cbn [bind]; [left|auto].
+        eexists. split; [reflexivity|]. rewrite Hk. exact Hnv. }
+      assert (Htext : forall k, (forall w, crit_ok (k w)) ->
+                (exists c, (w <- lower_str v;; Ok (k w)) = Ok c /\ crit_ok c)
+                \/ (w <- lower_str v;; Ok (k w)) = Raise Unmodelled).
+      { intros k Hk. destruct (lower_total v) as [(w & ->)| ->]; cbn [bind]; [left; eauto|right; reflexivity]. }
+      destruct (is_eq o && vn) eqn:E1.
+      * destruct (Hnum CNumEq (fun n => eq_refl)) as [H|[H|H]]; auto.
+        subst vn. rewrite andb_false_r in E1. discriminate.
+      * destruct (is_eq o && has_wild v).
+        -- destruct (has_meta v); [right; reflexivity|]. apply (Htext CWild). intros w. exact I.
+        -- destruct vn.
+           ++ destruct (Hnum (COpNum o) (fun n => eq_refl)) as [H|[H|H]]; auto. discriminate.
+           ++ apply (Htext (COpText o)). intros w. exact I.
+Qed.
+
+Lemma filterM_total {A} (f : A -> res bool) l :
+  (forall x, In x l -> ok_or_unmodelled (f x)) -> ok_or_unmodelled (filterM f l).
+Proof.
+  induction l as [|a l IH]; cbn [filterM]; intros H; [left; eauto|].
+  destruct (H a (or_introl eq_refl)) as [(b & ->)| ->]; cbn [bind]; [|right; reflexivity].
+  destruct IH as [(r & ->)| ->]; [intros x Hx; apply H; right; exact Hx| |]; cbn [bind];
+    [left; eauto|right; reflexivity].
+Qed.
+Lemma mapM_total {A B} (f : A -> res B) l :
+  (forall x, In x l -> ok_or_unmodelled (f x)) -> ok_or_unmodelled (mapM f l).
+Proof.
+  induction l as [|a l IH]; cbn [mapM]; intros H; [left; eauto|].
+  destruct (H a (or_introl eq_refl)) as [(b & ->)| ->]; cbn [bind]; [|right; reflexivity].
+  destruct IH as [(r & ->)| ->]; [intros x Hx; apply H; right; exact Hx| |]; cbn [bind];
+    [left; eauto|right; reflexivity].
+Qed.
+
+(* a range of scalar cells *)
+Definition scalar_rows (rows : list (list pyval)) : Prop :=
+  forall i x, In (i, x) (enum_rows 0 rows) -> is_scalar x = true.
+
+Lemma scan_total rows crit : crit_scalar crit -> scalar_rows rows -> ok_or_unmodelled (scan rows crit).
+Proof.
+  intros Hc Hr. unfold scan.
+  destruct (parse_total crit Hc) as [(c & -> & Hok)| ->]; cbn [bind]; [|right; reflexivity].
+  unfold find_cells.
+  destruct (filterM_total (fun p => sat c (snd p)) (enum_rows 0 rows)) as [(l & ->)| ->]; cbn [bind];
+    [|left; eauto|right; reflexivity].
+  intros [i x] Hin. cbn [snd]. apply sat_total; [exact Hok|]. apply (Hr i x Hin).
+Qed.
+
+Theorem select_total prs :
+  (forall rows crit, In (rows, crit) prs -> crit_scalar crit /\ scalar_rows rows) ->
+  ok_or_unmodelled (select_stage prs).
+Proof.
+  intros H. unfold select_stage.
+  destruct (mapM_total (fun p => scan (fst p) (snd p)) prs) as [(ls & ->)| ->]; cbn [bind];
+    [|left; eauto|right; reflexivity].
+  intros [rows crit] Hin. cbn [fst snd]. destruct (H rows crit Hin). apply scan_total; assumption.
+Qed.
+
+(* C15 totality: once the shape checks have passed, handle_ifs over ranges of
+   scalar cells and number/logical/text criteria returns positions (or is
+   outside the model); it never raises *)
+Theorem handle_ifs_total args op prs : shape_stage args op = Ok (inr prs) ->
+  (forall rows crit, In (rows, crit) prs -> crit_scalar crit /\ scalar_rows rows) ->
+  (exists coords, handle_ifs args op = Ok (inr coords)) \/ handle_ifs args op = Raise Unmodelled.
+Proof.
+  intros Hs H. unfold handle_ifs. rewrite Hs. cbn [bind].
+  destruct (select_total prs H) as [(l & ->)| ->]; cbn [bind]; [left; eauto|right; reflexivity].
+Qed.
+(* ... and a failed shape check is returned as the error text *)
+Lemma handle_ifs_shape_error args op e : shape_stage args op = Ok (inl e) ->
+  handle_ifs args op = Ok (inl e).
+Proof. intros Hs. unfold handle_ifs. rewrite Hs. reflexivity. Qed.
+
+(* COUNTIF / COUNTIFS never fail on such inputs *)
+Theorem countifs_total args prs : shape_stage args None = Ok (inr prs) ->
+  (forall rows crit, In (rows, crit) prs -> crit_scalar crit /\ scalar_rows rows) ->
+  (exists n, countifs args = Ok (VInt n)) \/ countifs args = Raise Unmodelled.
+Proof.
+  intros Hs H. unfold countifs.
+  destruct (handle_ifs_total args None prs Hs H) as [(l & ->)| ->]; cbn [bind]; [left; eauto|right; reflexivity].
+Qed.
+
+(* the shape checks themselves raise only AssertionError (arguments not in
+   pairs), IndexError (an empty range) or are outside the model *)
+Definition shape_exn (e : exn) : Prop := e = AssertionError \/ e = IndexError \/ e = Unmodelled.
+Definition raises_only {A} (P : exn -> Prop) (r : res A) : Prop :=
+  match r with Ok _ => True | Raise e => P e end.
+
+Lemma mapM_raises {A B} (P : exn -> Prop) (f : A -> res B) l :
+  (forall x, raises_only P (f x)) -> raises_only P (mapM f l).
+Proof.
+  intros H. induction l as [|a l IH]; cbn [mapM]; [exact I|].
+  pose proof (H a) as Ha. destruct (f a) as [y|e]; cbn [bind]; [|exact Ha].
+  destruct (mapM f l) as [ys|e]; cbn [bind]; [exact I|exact IH].
+Qed.
+
+Lemma wrap_total r : exists r', wrap r = Ok r'.
+Proof. unfold wrap, list_like, excelutil.f_list_like. destruct r; py_run; eauto. Qed.
+
+Lemma as_rows_raises r : raises_only shape_exn (as_rows r).
+Proof.
+  unfold as_rows. destruct r; try (cbn; unfold shape_exn; auto; fail);
+    (apply mapM_raises; intros row; destruct row; cbn; unfold shape_exn; auto).
+Qed.
+
+Lemma shape_stage_raises args op : raises_only shape_exn (shape_stage args op).
+Proof.
+  unfold shape_stage. destruct (pair_up args) as [[|p raw]|]; try (cbn; unfold shape_exn; auto; fail).
+  assert (H1 : raises_only shape_exn (mapM (fun p0 : pyval * pyval => wrap (fst p0)) (p :: raw))).
+  { apply mapM_raises. intros x. destruct (wrap_total (fst x)) as (r' & ->). exact I. }
+  destruct (mapM (fun p0 => wrap (fst p0)) (p :: raw)) as [rngs|e]; cbn [bind]; [|exact H1].
+  assert (H2 : raises_only shape_exn (mapM as_rows rngs)) by (apply mapM_raises; apply as_rows_raises).
+  destruct (mapM as_rows rngs) as [rows|e]; cbn [bind]; [|exact H2].
+  assert (H3 : raises_only shape_exn (mapM size_of rows)).
+  { apply mapM_raises. intros x. destruct x; cbn; unfold shape_exn; auto. }
+  destruct (mapM size_of rows) as [sizes|e]; cbn [bind]; [|exact H3].
+  destruct sizes as [|s0 rest]; [cbn; unfold shape_exn; auto|].
+  destruct (negb (forallb (size_eqb s0) rest)); [exact I|].
+  destruct op as [opr|]; cbn [bind].
+  - destruct (wrap_total opr) as (o1 & ->). cbn [bind].
+    pose proof (as_rows_raises o1) as H4. destruct (as_rows o1) as [orows|e]; cbn [bind]; [|exact H4].
+    destruct orows; cbn [size_of bind]; [cbn; unfold shape_exn; auto|].
+    match goal with |- context [if ?b then _ else _] => destruct b end; exact I.
+  - exact I.
+Qed.
+
+(* C15_total: over ranges of scalar cells and number/logical/text criteria
+   handle_ifs returns (positions or the #VALUE! of a shape mismatch), raises
+   AssertionError / IndexError for malformed arguments, or is outside the
+   model — no cell and no criterion makes it fail *)
+Theorem handle_ifs_never_fails args op :
+  (forall prs, shape_stage args op = Ok (inr prs) ->
+     forall rows crit, In (rows, crit) prs -> crit_scalar crit /\ scalar_rows rows) ->
+  raises_only shape_exn (handle_ifs args op).
+Proof.
+  intros H. pose proof (shape_stage_raises args op) as Hs.
+  destruct (shape_stage args op) as [[e|prs]|e] eqn:E.
+  - rewrite (handle_ifs_shape_error args op e E). exact I.
+  - destruct (handle_ifs_total args op prs E (H prs eq_refl)) as [(l & ->)| ->]; cbn; unfold shape_exn; auto.
+  - unfold handle_ifs. rewrite E. exact Hs.
 Qed.
 
 (* ------------------------------------------------ non-vacuity (tests) *)
